@@ -146,8 +146,14 @@ def _value_case(draw, gen: int):
             calls += [["zone_power", z, p] for p in cmdrun.ZPOWERS]
             calls.append(["zone_temp", z, draw(st.integers(1000, 3500)) / 100.0])
     for _ in range(draw(st.integers(1, 3))):
-        calls.append(["push_ac", draw(con.ac_state_strategy(gen, n))])
-        calls.append(["push_timer", n, draw(con.timer_strategy)])
+        # the console reports a timer status and / or an AC status, in either order (the AC status carries a 'timer set'
+        # flag of its own; the timers to preserve are those of the latest TIMER status, whatever that flag says)
+        order = draw(st.sampled_from(["ac,timer", "timer,ac", "ac", "timer", "timer,ac,ac"]))
+        for what in order.split(","):
+            if what == "ac":
+                calls.append(["push_ac", draw(con.ac_state_strategy(gen, n))])
+            else:
+                calls.append(["push_timer", n, draw(con.timer_strategy)])
         calls += [["ac_temp", n, t] for t in temps[:6]]
         calls += draw(st.lists(timer_call, min_size=2, max_size=5))
     return {"mode": "values", "inst": inst, "state": state, "calls": calls}
